@@ -469,7 +469,7 @@ fn main() {
                     let names: Vec<&str> = OPTAB.iter().map(|o| o.0).collect();
                     let by_state = |st: &str| -> Vec<&str> { names.iter().copied().filter(|x| state(x) == st).collect() };
                     let executors = holders("executor");
-                    let dt = *pick(&mut r, &[0i64, 0, 1, 1, 2, 3]);
+                    let dt = if r.gen_ratio(1, 25) { 3000 } else { *pick(&mut r, &[0i64, 0, 1, 1, 2, 3]) };
                     let kind = *pick(&mut r, &["schedule", "schedule", "schedule", "schedule", "cancel", "execute", "admin", "admin", "admin", "admin", "admin", "chk"]);
                     // an admin attempt is most telling when some operation is pending
                     let pend_any = names.iter().any(|x| *x != "E" && (state(x) == "Ready" || state(x) == "Waiting"));
